@@ -327,6 +327,54 @@ def generate(repo):
         raise Shape("Document::parse pass order changed: %r" % passes)
     w("(* checked by the translator: lex_token tries, in this order, %s *)" % ", ".join(EXPECTED_LEXERS))
     w("(* checked by the translator: Document::parse runs, in this order, %s *)" % ", ".join(EXPECTED_PASSES))
+    # ---- Markdown::parse (parsers/markdown.rs): the shapes Model/C02Markdown.v copies; tables for the parts that are lists
+    md_src = strip_tests(rd(repo, "harper-core/src/parsers/markdown.rs"))
+    b = fn_body(md_src, "parse")
+    flat = re.sub(r"\s+", " ", b)
+    if "pulldown_cmark::Options::all() .difference(pulldown_cmark::Options::ENABLE_SMART_PUNCTUATION)" not in flat:
+        raise Shape("Markdown::parse: pulldown-cmark options changed")
+    if "for (event, range) in md_parser.into_offset_iter() { if range.start > traversed_bytes { traversed_chars += source_str[traversed_bytes..range.start].chars().count(); traversed_bytes = range.start; }" not in flat:
+        raise Shape("Markdown::parse: the traversed_bytes / traversed_chars advance changed")
+    brk = re.findall(r"Event::(SoftBreak|HardBreak|Start\(pulldown_cmark::Tag::List\(v\)\)) => \{ tokens\.push\(Token \{ span: Span::new_with_len\(traversed_chars, (\d+)\), kind: TokenKind::Newline\((\d+)\), \}\);", flat)
+    if [x[0].split("(")[0] for x in brk] != ["SoftBreak", "HardBreak", "Start"]:
+        raise Shape("Markdown::parse: SoftBreak / HardBreak / Start(List) arms not recognised: %r" % brk)
+    m = re.search(r"Event::Start\(tag\) => stack\.push\(tag\), (.*?) => \{ tokens\.push\(Token \{ span: Span::new_with_len\(traversed_chars, 0\), kind: TokenKind::ParagraphBreak, \}\); stack\.pop\(\); \} pulldown_cmark::Event::End\(_\) => \{ stack\.pop\(\); \}", flat)
+    if not m:
+        raise Shape("Markdown::parse: the End(..) arms not recognised")
+    ends = re.findall(r"Event::End\(pulldown_cmark::TagEnd::(\w+)(?:\(_\))?\)", m.group(1))
+    if len(ends) != m.group(1).count("Event::End"):
+        raise Shape("Markdown::parse: an End(..) pattern not recognised")
+    m = re.search(r"pulldown_cmark::Event::InlineMath\(code\) \| pulldown_cmark::Event::DisplayMath\(code\) \| pulldown_cmark::Event::Code\(code\) => \{ let chunk_len = code\.chars\(\)\.count\(\); tokens\.push\(Token \{ span: Span::new_with_len\(traversed_chars, chunk_len\), kind: TokenKind::Unlintable, \}\); \}", flat)
+    if not m:
+        raise Shape("Markdown::parse: the Code / InlineMath / DisplayMath arm changed (finding FC02a repaired? then re-model)")
+    if "pulldown_cmark::Event::Text(text) => { let chunk_len = text .chars() .count() .min(source_str[range.clone()].chars().count()); if chunk_len == 0 { continue; }" not in re.sub(r"//[^\n]*", "", b).replace("\n", " ").replace("  ", " ") and \
+       "let chunk_len = text .chars() .count() .min(source_str[range.clone()].chars().count()); if chunk_len == 0 { continue; }" not in re.sub(r"\s+", " ", re.sub(r"//[^\n]*", "", b)):
+        raise Shape("Markdown::parse: the clamp of a Text event to its source range (548c418) changed")
+    m = re.search(r"if !\((matches!\(tag, Tag::Paragraph\).*?)\) \{ continue; \}", flat)
+    if not m:
+        raise Shape("Markdown::parse: the list of prose tags not recognised")
+    prose = re.findall(r"matches!\(tag, Tag::(\w+)(?: \{ \.\. \})?\)( && !self\.options\.ignore_link_title)?", m.group(1))
+    if len(prose) != m.group(1).count("matches!") or [t for t, c in prose if c] != ["Link"]:
+        raise Shape("Markdown::parse: a prose-tag test not recognised: %r" % prose)
+    if "if matches!(tag, Tag::CodeBlock(..)) {" not in flat or "if matches!(tag, Tag::Link { .. }) && self.options.ignore_link_title {" not in flat:
+        raise Shape("Markdown::parse: the Unlintable cases of a Text event changed")
+    if "english_parser.parse(&source[traversed_chars..traversed_chars + chunk_len]); new_tokens .iter_mut() .for_each(|token| token.span.push_by(traversed_chars));" not in flat:
+        raise Shape("Markdown::parse: the inner parse of a Text chunk changed")
+    if not re.search(r"Event::Html\(_content\) \| pulldown_cmark::Event::InlineHtml\(_content\) => \{ let size = _content\.chars\(\)\.count\(\); tokens\.push\(Token \{ span: Span::new_with_len\(traversed_chars, size\), kind: TokenKind::Unlintable, \}\); \}", flat):
+        raise Shape("Markdown::parse: the Html arm changed")
+    if not re.search(r"kind: TokenKind::Newline\(_\) \| TokenKind::ParagraphBreak, \.\. \}\) \) && source\.last\(\) != Some\(&'\\n'\) \{ tokens\.pop\(\); \} Self::remove_hidden_wikilink_tokens\(&mut tokens\); Self::remove_wikilink_brackets\(&mut tokens\); tokens$", flat.strip().rstrip("}").strip()):
+        raise Shape("Markdown::parse: the final pop / the order of the two wikilink passes changed")
+    hb = re.sub(r"\s+", " ", fn_body(md_src, "remove_hidden_wikilink_tokens"))
+    if "to_remove.extend(open_bracket_idx..=pipe_idx); to_remove.push_back(close_bracket_idx); to_remove.push_back(close_bracket_idx + 1);" not in hb or "if pipe_idx < 2 { continue; }" not in hb or "let mut cursor = pipe_idx - 2;" not in hb or "cursor = pipe_idx + 1;" not in hb:
+        raise Shape("remove_hidden_wikilink_tokens changed")
+    wb = re.sub(r"\s+", " ", fn_body(md_src, "remove_wikilink_brackets"))
+    if "to_remove.push_back(open_brackets_idx); to_remove.push_back(open_brackets_idx + 1); to_remove.push_back(cursor); to_remove.push_back(cursor + 1); open_brackets = None;" not in wb:
+        raise Shape("remove_wikilink_brackets changed")
+    w("(* Markdown::parse (checked by the translator: options, cursor advance, arms, clamp of Text events, final pop, order of the wikilink passes) *)")
+    w("Definition md_break_arms : list (list N * nat * nat) := [" + "; ".join("(%s, %s%%nat, %s%%nat)" % (text_of(x[0].split("(")[0] if x[0] != "Start(pulldown_cmark::Tag::List(v))" else "StartList"), x[1], x[2]) for x in brk) + "].   (* arm, span length, Newline(n) *)")
+    w("Definition md_breaking_ends : list (list N) := [" + "; ".join(text_of(x) for x in ends) + "].")
+    w("Definition md_prose_tags : list (list N * bool) := [" + "; ".join("(%s, %s)" % (text_of(t), "true" if c else "false") for t, c in prose) + "].   (* tag, only when !ignore_link_title *)")
+    w("")
     w("Definition lexer_count : nat := %d." % len(names))
     w("Definition pass_count : nat := %d." % len(passes))
     return "\n".join(out) + "\n"
